@@ -922,3 +922,240 @@ Proof.
   unfold afield_opsok, af_items. cbn [af_first af_rest forallb]. rewrite Hn. cbn [andb].
   clear HF. induction Hs as [|sg ss' Hsg _ IH]; [reflexivity|]. cbn [map forallb]. now rewrite (nseg_ops b sg Hsg), IH.
 Qed.
+
+(* ------------------------------------------------------------------ norm: a token list the lexer produces *)
+(* scanning a token list from the left; the state is the class of the previous token *)
+Inductive cls := cWS | cID | cO.
+Definition cls_of (k : rkind) : cls := match k with WHITESPACE => cWS | IDENT => cID | _ => cO end.
+Definition adj_c (c : option cls) (k : cls) : bool :=
+  match c, k with Some cWS, cWS => false | Some cID, cID => false | _, _ => true end.
+Fixpoint scan (c : option cls) (ts : list rtoken) : option (option cls) :=
+  match ts with
+  | [] => Some c
+  | t :: r => if tok_valid t && adj_c c (cls_of (fst t)) then scan (Some (cls_of (fst t))) r else None
+  end.
+Fixpoint end_cls (c : option cls) (ts : list rtoken) : option cls :=
+  match ts with [] => c | t :: r => end_cls (Some (cls_of (fst t))) r end.
+Definition nid (c : option cls) : Prop := c <> Some cID.
+Definition nws (c : option cls) : Prop := c <> Some cWS.
+
+Lemma adj_ok_c a b : adj_ok a b = adj_c (Some (cls_of a)) (cls_of b).
+Proof. destruct a, b; reflexivity. Qed.
+Lemma scan_app a : forall c b, scan c (a ++ b) = match scan c a with Some c' => scan c' b | None => None end.
+Proof. induction a as [|t r IH]; intros c b; [reflexivity|]. cbn [app scan]. destruct (tok_valid t && adj_c c (cls_of (fst t))); [apply IH|reflexivity]. Qed.
+Lemma scan_lexable ts : forall c c', scan c ts = Some c' -> lexable ts = true.
+Proof.
+  induction ts as [|t r IH]; intros c c' H; [reflexivity|]. cbn [scan] in H.
+  destruct (tok_valid t && adj_c c (cls_of (fst t))) eqn:E; [|discriminate]. andb_hyps.
+  rewrite lexable_cons, H0, (IH _ _ H). destruct r as [|t' r']; [reflexivity|]. cbn [scan] in H.
+  rewrite adj_ok_c. destruct (tok_valid t' && adj_c (Some (cls_of (fst t))) (cls_of (fst t'))) eqn:E'; [|discriminate]. andb_hyps.
+  now rewrite H3.
+Qed.
+Lemma scan_of_lexable ts : lexable ts = true -> forall c,
+  match ts with t :: _ => adj_c c (cls_of (fst t)) | [] => true end = true -> scan c ts = Some (end_cls c ts).
+Proof.
+  induction ts as [|t r IH]; intros H c Hc; [reflexivity|]. rewrite lexable_cons in H. andb_hyps. cbn [scan end_cls].
+  rewrite H, Hc. cbn [andb]. apply IH; [assumption|]. destruct r as [|t' r']; [reflexivity|]. now rewrite <- adj_ok_c.
+Qed.
+Lemma end_cls_snoc a t : forall c, end_cls c (a ++ [t]) = Some (cls_of (fst t)).
+Proof. induction a as [|x r IH]; intros c; [reflexivity|]. cbn [app end_cls]. apply IH. Qed.
+Lemma end_cls_ws ts : wsk ts = true -> forall c, nid c -> nid (end_cls c ts).
+Proof.
+  unfold wsk. induction ts as [|[k s] r IH]; intros H c Hc; [exact Hc|]. cbn [forallb fst] in H. andb_hyps. cbn [end_cls fst].
+  apply IH; [assumption|]. destruct k; try discriminate; unfold nid; cbn; congruence.
+Qed.
+
+(* white space texts *)
+Definition is_wsc (c : char) : bool := is_rel_ws c || (c =? 10)%N.
+Definition wss (s : str) : bool := forallb is_wsc s.
+Lemma ws_single_none c : is_rel_ws c = true -> single_char_kind c = None.
+Proof. intros H. destruct (single_char_kind c) as [k|] eqn:E; [|reflexivity]. apply single_not_ws in E. congruence. Qed.
+Lemma single_not_wskind c : single_char_kind c <> Some WHITESPACE.
+Proof. unfold single_char_kind. repeat match goal with |- context [(c =? ?k)%N] => destruct (c =? k)%N end; discriminate. Qed.
+Lemma ws_toks_lexable s : wss s = true -> lexable (ws_toks s) = true.
+Proof.
+  unfold wss. induction s as [|c r IH]; [reflexivity|]. cbn [forallb]. intros H. andb_hyps. specialize (IH H0). cbn [ws_toks].
+  destruct (c =? 10)%N eqn:Ec.
+  - apply N.eqb_eq in Ec. subst c. rewrite lexable_cons, IH. destruct (ws_toks r) as [|[k x] t]; reflexivity.
+  - unfold is_wsc in H. rewrite Ec, orb_false_r in H.
+    destruct (ws_toks r) as [|[k w] ts] eqn:Er.
+    + rewrite lexable_cons. unfold tok_valid. cbn [fst snd]. now rewrite (ws_single_none c H), H.
+    + destruct k; try (rewrite lexable_cons, IH; unfold tok_valid; cbn [fst snd]; rewrite (ws_single_none c H), H; reflexivity).
+      rewrite lexable_cons in IH. andb_hyps. rewrite lexable_cons. unfold tok_valid in *. cbn [fst snd] in *.
+      rewrite (ws_single_none c H), H. cbn [rkind_eqb andb forallb].
+      destruct w as [|c' w']; [discriminate|]. destruct (single_char_kind c') as [k0|] eqn:Es.
+      { exfalso. match goal with X : rkind_eqb WHITESPACE k0 && _ = true |- _ => apply andb_prop in X as [X _]; apply rkind_eqb_eq in X; subst k0 end. now apply (single_not_wskind c'). }
+      destruct (is_rel_ws c') eqn:Ew.
+      * andb_hyps. cbn [forallb]. rewrite Ew. andb_goal; auto.
+      * destruct (is_ident_char c'); andb_hyps; discriminate.
+Qed.
+Lemma scan_slot s c : wss s = true -> nws c -> scan c (ws_toks s) = Some (end_cls c (ws_toks s)).
+Proof.
+  intros Hs Hc. apply scan_of_lexable; [now apply ws_toks_lexable|]. pose proof (wsk_ws_toks s) as Hk. unfold wsk in Hk.
+  destruct (ws_toks s) as [|[k x] t]; [reflexivity|]. cbn [forallb fst] in Hk. andb_hyps.
+  destruct k; try discriminate; destruct c as [[| |]|]; try reflexivity. exfalso. now apply Hc.
+Qed.
+Lemma slot_nid s c : nid c -> nid (end_cls c (ws_toks s)).
+Proof. apply end_cls_ws, wsk_ws_toks. Qed.
+
+Lemma single_newline c : single_char_kind c = Some NEWLINE -> (c =? 10)%N = true.
+Proof. unfold single_char_kind. repeat match goal with |- context [(c =? ?k)%N] => destruct (c =? k)%N eqn:? end; try discriminate; reflexivity. Qed.
+Lemma wtok_ok_wss w : wtok_ok w = true -> wss (wtext w) = true.
+Proof.
+  unfold wtok_ok, tok_valid, wss. destruct w as [[|] s]; cbn [wtok_tok fst snd wtext]; destruct s as [|c r]; try discriminate.
+  - destruct (single_char_kind c) as [k|] eqn:E.
+    + intros H. andb_hyps. apply rkind_eqb_eq in H. subst k. destruct r; [|discriminate]. cbn [forallb]. unfold is_wsc. now rewrite (single_newline c E), orb_true_r.
+    + destruct (is_rel_ws c); [intros H; andb_hyps; discriminate|]. destruct (is_ident_char c); intros H; andb_hyps; discriminate.
+  - destruct (single_char_kind c) as [k|] eqn:E.
+    + intros H. andb_hyps. apply rkind_eqb_eq in H. subst k. exfalso. now apply (single_not_wskind c).
+    + destruct (is_rel_ws c) eqn:Ew; [|destruct (is_ident_char c); intros H; andb_hyps; discriminate].
+      intros H. andb_hyps. cbn [forallb]. unfold is_wsc. rewrite Ew. cbn [orb andb].
+      rewrite forallb_forall in *. intros x Hx. now rewrite (H0 x Hx).
+Qed.
+Lemma wsl_ok_wss w : wsl_ok w = true -> wss (wstext w) = true.
+Proof.
+  unfold wsl_ok, wss. induction w as [|t r IH]; [reflexivity|]. cbn [forallb wstext flat_map]. intros H. andb_hyps.
+  rewrite forallb_app. andb_goal; [now apply wtok_ok_wss|now apply IH].
+Qed.
+Lemma wss_app a b : wss (a ++ b) = wss a && wss b.
+Proof. apply forallb_app. Qed.
+Lemma take_ws_wss b l : forallb (relem_ok b) l = true -> wss (fst (take_ws l)) = true.
+Proof.
+  induction l as [|x r IH]; [reflexivity|]. intros H. destruct x as [w| | |]; try reflexivity.
+  cbn [forallb relem_ok] in H. andb_hyps. specialize (IH H0). cbn [take_ws]. destruct (take_ws r) as [s r']. cbn [fst] in *.
+  rewrite wss_app. andb_goal; [now apply wtok_ok_wss|exact IH].
+Qed.
+
+(* the pieces *)
+Lemma scan_body c t body : lexable (t :: body) = true -> cls_of (fst t) = cO ->
+  scan c (t :: body) = Some (end_cls c (t :: body)).
+Proof. intros H Hk. apply scan_of_lexable; [exact H|]. rewrite Hk. now destruct c as [[| |]|]. Qed.
+Definition body_end (ts : list rtoken) : Prop := exists a t, ts = a ++ [t] /\ cls_of (fst t) <> cWS.
+Lemma body_end_nws ts c : body_end ts -> nws (end_cls c ts).
+Proof. intros (a & t & -> & Ht). rewrite end_cls_snoc. unfold nws. congruence. Qed.
+
+Lemma scan_part {A} (mk : list rtoken -> A -> list rtoken) (body : A -> list rtoken) w a c t bd :
+  (forall ws0, mk ws0 a = ws0 ++ body a) -> body a = t :: bd -> cls_of (fst t) = cO -> body_end (body a) ->
+  wsl_ok w = true -> lexable (body a) = true -> nws c ->
+  exists c', scan c (mk (relex w) a) = Some c' /\ nws c'.
+Proof.
+  intros Hmk Hb Hk He Hw Hl Hc. rewrite Hmk, scan_app. unfold relex. rewrite (scan_slot _ c (wsl_ok_wss w Hw) Hc).
+  rewrite Hb in *. rewrite (scan_body _ t bd Hl Hk). eexists. split; [reflexivity|]. now apply body_end_nws.
+Qed.
+Lemma snoc_end {A} (x : A) l : exists a t, x :: l = a ++ [t].
+Proof. revert x. induction l as [|y r IH]; intros x; [now exists [], x|]. destruct (IH y) as (a & t & ->). now exists (x :: a), t. Qed.
+
+Lemma scan_rel r extra c : lrel_ok r = true -> wss extra = true -> nid c ->
+  exists c', scan c (arel_toks (nrel r extra)) = Some c'.
+Proof.
+  unfold lrel_ok. intros H He Hc. andb_hyps.
+  unfold arel_toks, arel_core_toks, nrel. cbn [a_name a_qual a_ver a_archs a_profs a_trail].
+  cbn [app scan fst]. unfold name_ok in H. rewrite H.
+  assert (Ha : adj_c c (cls_of IDENT) = true) by (destruct c as [[| |]|]; try reflexivity; exfalso; now apply Hc).
+  rewrite Ha. cbn [andb]. rewrite <- !app_assoc.
+  (* qualifier *)
+  assert (Hq : exists c1, scan (Some (cls_of IDENT))
+                 (opt_toks aqual_toks (option_map (fun wq => mk_aqual (relex (fst wq)) (aq_ws1 (snd wq)) (aq_name (snd wq))) (l_qual r))) = Some c1 /\ nws c1).
+  { destruct (l_qual r) as [[w q]|]; [|eexists; split; [reflexivity|unfold nws; cbn; congruence]].
+    cbn [inner_ok option_map opt_toks fst snd] in *. andb_hyps.
+    match goal with X : qual_in_ok q = true |- _ => unfold qual_in_ok in X end. andb_hyps.
+    apply (scan_part (fun ws0 q0 => aqual_toks (mk_aqual ws0 (aq_ws1 q0) (aq_name q0))) aqual_body w q _ t_colon (aq_ws1 q ++ [(IDENT, aq_name q)]));
+      try assumption; try reflexivity.
+    - exists (t_colon :: aq_ws1 q), (IDENT, aq_name q). split; [reflexivity|discriminate].
+    - unfold nws. cbn. congruence. }
+  destruct Hq as (c1 & S1 & N1). rewrite scan_app, S1.
+  (* version *)
+  assert (Hv : exists c2, scan c1
+                 (opt_toks aver_toks (option_map (fun wv => mk_aver (relex (fst wv)) (av_ws1 (snd wv)) (av_op (snd wv)) (av_ws2 (snd wv)) (av_ver (snd wv)) (av_ws3 (snd wv))) (l_ver r))) = Some c2 /\ nws c2).
+  { destruct (l_ver r) as [[w v]|]; [|eexists; split; [reflexivity|exact N1]].
+    cbn [inner_ok option_map opt_toks fst snd] in *. andb_hyps.
+    match goal with X : vclause_in_ok v = true |- _ => unfold vclause_in_ok in X end. andb_hyps.
+    apply (scan_part (fun ws0 v0 => aver_toks (mk_aver ws0 (av_ws1 v0) (av_op v0) (av_ws2 v0) (av_ver v0) (av_ws3 v0))) aver_body_toks w v _ (L_PARENS, [40%N])
+             (av_ws1 v ++ map op_tok (av_op v) ++ av_ws2 v ++ map vpiece_tok (av_ver v) ++ av_ws3 v ++ [(R_PARENS, [41%N])]));
+      try assumption; try reflexivity.
+    exists ((L_PARENS, [40%N]) :: av_ws1 v ++ map op_tok (av_op v) ++ av_ws2 v ++ map vpiece_tok (av_ver v) ++ av_ws3 v), (R_PARENS, [41%N]).
+    split; [unfold aver_body_toks; cbn [app]; now rewrite <- !app_assoc|discriminate]. }
+  destruct Hv as (c2 & S2 & N2). rewrite scan_app, S2.
+  (* architectures *)
+  assert (Hg : exists c3, scan c2
+                 (opt_toks agroup_toks (option_map (fun wg => mk_agroup (relex (fst wg)) (ag_atoms (snd wg)) (ag_ws1 (snd wg))) (l_archs r))) = Some c3 /\ nws c3).
+  { destruct (l_archs r) as [[w g]|]; [|eexists; split; [reflexivity|exact N2]].
+    cbn [inner_ok option_map opt_toks fst snd] in *. andb_hyps.
+    match goal with X : group_in_ok g = true |- _ => unfold group_in_ok in X end. andb_hyps.
+    apply (scan_part (fun ws0 g0 => agroup_toks (mk_agroup ws0 (ag_atoms g0) (ag_ws1 g0))) agroup_body_toks w g _ (L_BRACKET, [91%N])
+             (flat_map watom_toks (ag_atoms g) ++ ag_ws1 g ++ [(R_BRACKET, [93%N])]));
+      try assumption; try reflexivity.
+    exists ((L_BRACKET, [91%N]) :: flat_map watom_toks (ag_atoms g) ++ ag_ws1 g), (R_BRACKET, [93%N]).
+    split; [unfold agroup_body_toks; cbn [app]; now rewrite <- !app_assoc|discriminate]. }
+  destruct Hg as (c3 & S3 & N3). rewrite scan_app, S3.
+  (* profiles *)
+  assert (Hp : forall ps c4, nws c4 ->
+            forallb (fun wg : wsl * pgroup => wsl_ok (fst wg) && pgroup_in_ok (snd wg)) ps = true ->
+            exists c5, scan c4 (flat_map pgroup_toks (map (fun wg => mk_pgroup (relex (fst wg)) (pg_terms (snd wg)) (pg_ws1 (snd wg))) ps)) = Some c5 /\ nws c5).
+  { induction ps as [|[w g] rest IHp]; intros c4 N4 Hps; [eexists; split; [reflexivity|exact N4]|].
+    cbn [forallb fst snd] in Hps. andb_hyps. match goal with X : pgroup_in_ok g = true |- _ => unfold pgroup_in_ok in X end. andb_hyps.
+    cbn [map flat_map fst snd].
+    destruct (scan_part (fun ws0 g0 => pgroup_toks (mk_pgroup ws0 (pg_terms g0) (pg_ws1 g0))) pgroup_body_toks w g c4 (L_ANGLE, [60%N])
+             (flat_map wpterm_toks (pg_terms g) ++ pg_ws1 g ++ [(R_ANGLE, [62%N])])) as (c' & S' & N'); try assumption; try reflexivity.
+    { exists ((L_ANGLE, [60%N]) :: flat_map wpterm_toks (pg_terms g) ++ pg_ws1 g), (R_ANGLE, [62%N]).
+      split; [unfold pgroup_body_toks; cbn [app]; now rewrite <- !app_assoc|discriminate]. }
+    rewrite scan_app, S'. now apply IHp. }
+  destruct (Hp (l_profs r) c3 N3) as (c5 & S5 & N5); [assumption|]. rewrite scan_app, S5.
+  (* trailing white space *)
+  rewrite scan_slot; [eauto| |exact N5]. rewrite wss_app. andb_goal; [now apply wsl_ok_wss|exact He].
+Qed.
+Lemma scan_alts alts : forall prev extra c, lrel_ok prev = true -> forallb alt_ok alts = true -> wss extra = true -> nid c ->
+  exists c', scan c (arels_toks (fst (nalts prev alts extra)) (snd (nalts prev alts extra))) = Some c'.
+Proof.
+  induction alts as [|[[w1 w2] r] rest IH]; intros prev extra c Hp Ha He Hc; cbn [nalts].
+  - cbn [fst snd arels_toks]. rewrite app_nil_r. now apply scan_rel.
+  - cbn [forallb] in Ha. andb_hyps. unfold alt_ok in H. cbn [fst snd] in H. andb_hyps.
+    specialize (IH r extra). destruct (nalts r rest extra) as [r' more]. cbn [fst snd arels_toks] in *.
+    destruct (scan_rel prev (wstext w1) c Hp (wsl_ok_wss _ H) Hc) as (c1 & S1). rewrite scan_app, S1.
+    cbn [scan fst]. change (tok_valid (PIPE, [124%N])) with true. replace (adj_c c1 (cls_of PIPE)) with true by (now destruct c1 as [[| |]|]).
+    cbn [andb]. rewrite scan_app. unfold relex. rewrite scan_slot; [|now apply wsl_ok_wss|unfold nws; cbn; congruence].
+    apply IH; try assumption. apply slot_nid. unfold nid. cbn. congruence.
+Qed.
+Lemma scan_item b x r c : relem_ok b x = true -> is_item x = true -> forallb (relem_ok b) r = true -> nid c ->
+  exists c', scan c (aitem_toks (nitem (x :: r))) = Some c'.
+Proof.
+  intros Hx Hi Hr Hc. destruct x as [w| |e|body]; try discriminate; cbn [nitem relem_ok] in *.
+  - rewrite lentry_ok_eq in Hx. andb_hyps. unfold nentry.
+    destruct (scan_alts (e_alts e) (e_first e) (wstext (e_trail e) ++ fst (take_ws r)) c) as (c' & S'); try assumption.
+    { rewrite wss_app. andb_goal; [now apply wsl_ok_wss|now apply (take_ws_wss b)]. }
+    destruct (nalts (e_first e) (e_alts e) (wstext (e_trail e) ++ fst (take_ws r))) as [r0 alts]. cbn [fst snd aitem_toks] in *. eauto.
+  - andb_hyps. cbn [aitem_toks]. rewrite scan_app. unfold asubst_toks in *.
+    rewrite (scan_body c (DOLLAR, [36%N]) _ H0 eq_refl).
+    rewrite scan_slot; [eauto|now apply (take_ws_wss b)|].
+    apply body_end_nws. exists ((DOLLAR, [36%N]) :: (L_CURLY, [123%N]) :: map vpiece_tok body), (R_CURLY, [125%N]). split; [reflexivity|discriminate].
+Qed.
+Lemma scan_seg b sg c : forallb (relem_ok b) sg = true -> seg_good false sg -> nws c -> nid c ->
+  exists c', scan c (fst (nseg sg) ++ aitem_toks (snd (nseg sg))) = Some c'.
+Proof.
+  intros H Hg Hw Hc. pose proof (good_shape sg Hg) as Hs. pose proof (take_ws_elems b sg H) as H2. pose proof (take_ws_wss b sg H) as H1.
+  unfold nseg. destruct (take_ws sg) as [w rest]. cbn [fst snd] in *. rewrite scan_app, (scan_slot w c H1 Hw).
+  destruct Hs as [|x r Hx Hr]; [cbn [nitem aitem_toks scan]; eauto|].
+  cbn [forallb] in H2. andb_hyps. apply (scan_item b); try assumption. now apply slot_nid.
+Qed.
+Theorem lexable_norm b l : lwf b l = true -> lexable (atoks (norm l)) = true.
+Proof.
+  intros H. destruct (lwf_split _ _ H) as (Hok & s & Hs). destruct (segments_good l false s Hs) as (s0 & ss & E & G0 & G).
+  pose proof (segments_forall _ _ Hok) as HF. rewrite E in HF. inversion HF as [|? ? H0 Hss]; subst.
+  unfold norm. rewrite E. cbn [map]. destruct (nseg s0) as [w i] eqn:E0. unfold atoks. cbn [af_lead af_first af_rest].
+  assert (Hall : forall ss' c, Forall (seg_good false) ss' -> Forall (fun sg => forallb (relem_ok b) sg = true) ss' ->
+            forall i0, (exists c1, scan c (aitem_toks i0) = Some c1) ->
+            exists c', scan c (aitems_toks i0 (map nseg ss')) = Some c').
+  { induction ss' as [|sg rest IH]; intros c Gs Fs i0 (c1 & S1); cbn [map aitems_toks]; [rewrite app_nil_r; eauto|].
+    inversion Gs as [|? ? Hg Gr]; subst. inversion Fs as [|? ? Hf Fr]; subst.
+    destruct (nseg sg) as [w' i'] eqn:En. rewrite scan_app, S1. cbn [scan fst].
+    change (tok_valid (COMMA, [44%N])) with true. replace (adj_c c1 (cls_of COMMA)) with true by (now destruct c1 as [[| |]|]). cbn [andb].
+    destruct (scan_seg b sg (Some (cls_of COMMA)) Hf Hg) as (c2 & S2); [unfold nws; cbn; congruence|unfold nid; cbn; congruence|].
+    rewrite En in S2. cbn [fst snd] in S2. rewrite scan_app in S2. destruct (scan (Some (cls_of COMMA)) w') as [cw|] eqn:Ew; [|discriminate].
+    rewrite scan_app, Ew. apply (IH cw Gr Fr). eauto. }
+  destruct (scan_seg b s0 None H0 G0) as (c0 & S0); [unfold nws; congruence|unfold nid; congruence|].
+  rewrite E0 in S0. cbn [fst snd] in S0. rewrite scan_app in S0. destruct (scan None w) as [cw|] eqn:Ew; [|discriminate].
+  destruct (Hall ss cw G Hss i (ex_intro _ c0 S0)) as (c' & S').
+  apply (scan_lexable _ None c'). now rewrite scan_app, Ew.
+Qed.
+Theorem awf_norm b l : lwf b l = true -> awf b (norm l) = true.
+Proof. intros H. unfold awf. now rewrite (ashape_norm b l H), (lexable_norm b l H). Qed.
